@@ -133,6 +133,13 @@ def run(ctx):
     for g in ("getSectionName", "getSectionType", "getSectionDefinition",
               "getSectionAttributes"):
         crosscheck(ctx, "C02.R6", SV + "." + g, REF, g, SV, g)
+    from rules.common import crosscheck_many
+    crosscheck_many(ctx, "C02.R6", [
+        (SV + ".getSectionMatcher", "getSectionMatcher", SV,
+         "the matcher that built the value"),
+        (INF + ".ValueInfo.__init__", "valueinfo_init", INF + ".ValueInfo",
+         "value and position kept as given"),
+    ])
     crosscheck(ctx, "C02.R6", MT + ".SchemaMatcher.finish", REF,
                "schemamatcher_finish", MT + ".SchemaMatcher",
                "schema datatype applied last, handler appended after")
